@@ -168,8 +168,15 @@ func TestC19(t *testing.T) {
 				st = lib.GenDelete(rt, kind, pairs, true)
 			case 2:
 				st = lib.GenRemove(rt, kind, pairs, true)
-			case 3, 4, 5:
+			case 3, 4:
 				st = lib.GenSelect(rt, kind, pairs, lib.SelOpts{Aggregate: 2, Exotic: true, Order: true, Limit: true})
+			case 5:
+				// the short form without a select part (`where P [order by ..] [limit ..]`)
+				st = lib.GenSelect(rt, kind, pairs, lib.SelOpts{Order: true, Limit: true, Exotic: true})
+				st.Star, st.Fields, st.NoSelKW = true, nil, true
+				for i := range st.Order {
+					st.Order[i].Name = rapid.SampledFrom([]string{"key", "value"}).Draw(rt, "shortFormOrder")
+				}
 			default:
 				st = lib.GenSelect(rt, kind, pairs, lib.SelOpts{Aliases: true, Aggregate: 1, Order: true, Limit: true, Exotic: true})
 			}
